@@ -191,9 +191,23 @@ func (e *Engine) callMods(m *ModSet, cc *ssa.CallCommon, self *ssa.Function) {
 		m.Top = true
 		return
 	}
-	if ct := e.contractOf(callee); ct != nil && ct.Modifies != nil {
-		m.add(e.contractMods(callee, ct))
-		return
+	if ct := e.contractOf(callee); ct != nil {
+		for _, g := range ct.ghostKeys() {
+			m.Keys[g] = true
+		}
+		if ct.Modifies != nil {
+			m.add(e.contractMods(callee, ct))
+			return
+		}
+	}
+	if ct := e.externCts[callee.String()]; ct != nil {
+		for _, g := range ct.ghostKeys() {
+			m.Keys[g] = true
+		}
+		if ct.Modifies != nil {
+			m.add(e.contractMods(nil, ct))
+			return
+		}
 	}
 	if e.isModule(callee) && callee.Blocks != nil {
 		if callee == self {
